@@ -17,7 +17,7 @@
    of every rune a Go string yields). *)
 From Coq Require Import List NArith ZArith Permutation.
 From Dials Require Import Base.Outcome Base.Runes Text.ParseInt Text.Quote Text.Split
-  Text.FlagHelpers Text.ParseFloat Text.ParseIntProofs Text.QuoteProofs Text.SplitProofs.
+  Text.FlagHelpers Text.ParseString Text.ParseFloat Text.ParseIntProofs Text.QuoteProofs Text.SplitProofs.
 Import ListNotations.
 Open Scope N_scope.
 
@@ -121,6 +121,9 @@ Theorem mss_roundtrip : forall isp, (forall r, r < 128 -> isp r = ascii_print r)
   exists m', mss_parse isp (mss_string isp m) = Ok m' /\ Permutation m' m.
 Proof. exact mss_roundtrip_l. Qed.
 
+Theorem bool_roundtrip : forall b, parse_bool (format_bool b) = Ok b.
+Proof. exact bool_roundtrip_l. Qed.
+
 (* ---- floats: given strconv's print/parse round trip ---- *)
 Theorem float_roundtrip_given_strconv :
   forall (F64 F32 : Type) (parse_float : N -> str -> outcome F64) (overflow32 : F64 -> bool)
@@ -151,4 +154,5 @@ Print Assumptions slice_roundtrip.
 Print Assumptions set_roundtrip.
 Print Assumptions map_roundtrip.
 Print Assumptions mss_roundtrip.
+Print Assumptions bool_roundtrip.
 Print Assumptions float_roundtrip_given_strconv.
